@@ -27,6 +27,31 @@ func stripAddrs(s string) string {
 	return addrRe.ReplaceAllString(s, "0xADDR")
 }
 
+// normAddrs replaces every spelling (hex with or without 0x, upper or lower case, decimal) of the given
+// addresses by their position in the list, longest spelling first.
+func normAddrs(s string, addrs []uintptr) string {
+	if len(addrs) == 0 || len(s) < 6 {
+		return s
+	}
+	seen := map[uintptr]bool{}
+	for k, a := range addrs {
+		if a == 0 || seen[a] {
+			continue
+		}
+		seen[a] = true
+		tag := fmt.Sprintf("PTR#%d", k)
+		lo := fmt.Sprintf("%x", a)
+		up := strings.ToUpper(lo)
+		dec := fmt.Sprintf("%d", a)
+		for _, sp := range []string{"0x" + lo, "0X" + up, "0x" + up, lo, up, dec} {
+			if strings.Contains(s, sp) {
+				s = strings.ReplaceAll(s, sp, tag)
+			}
+		}
+	}
+	return s
+}
+
 func errString(e error) string {
 	if e == nil {
 		return "<nil>"
@@ -39,6 +64,26 @@ func panicString(v interface{}) string {
 		return "panic:" + stripAddrs(e.Error())
 	}
 	return "panic:" + stripAddrs(fmt.Sprint(v))
+}
+
+// renderNormalised makes render replace the addresses reachable from the operation's object by their position
+// in the traversal (expensive; used only to re-examine results that differ textually).
+var renderNormalised bool
+
+// sameResult reports whether two results are equal, first as rendered, then - if they differ - with each side's
+// own object addresses neutralised in whatever spelling they were printed.
+func sameResult(a, b *opResult) (bool, string, string) {
+	ra, rb := render(a), render(b)
+	if ra == rb {
+		return true, ra, rb
+	}
+	if len(a.addrs) == 0 && len(b.addrs) == 0 {
+		return false, ra, rb
+	}
+	renderNormalised = true
+	na, nb := render(a), render(b)
+	renderNormalised = false
+	return na == nb, ra, rb
 }
 
 // render turns a raw result into its canonical text.
@@ -67,7 +112,11 @@ func render(r *opResult) string {
 		case ptInt:
 			fmt.Fprintf(&sb, "int:%d;", p.n)
 		case ptStr:
-			fmt.Fprintf(&sb, "str:%q;", stripAddrs(p.s))
+			if renderNormalised {
+				fmt.Fprintf(&sb, "str:%q;", stripAddrs(normAddrs(p.s, r.addrs)))
+			} else {
+				fmt.Fprintf(&sb, "str:%q;", stripAddrs(p.s))
+			}
 		case ptErr:
 			sb.WriteString("err:" + errString(p.err) + ";")
 		case ptPanic:
@@ -251,8 +300,10 @@ func checkAgainstReference(s *RunSpec, conc, ref *world, out []Violation) []Viol
 			rs, ri := &ref.res[t][i], &ref.iso[t][i]
 			ss, si := render(rs), render(ri)
 			var sc string
+			var rc *opResult
 			if conc != nil {
-				sc = render(&conc.res[t][i])
+				rc = &conc.res[t][i]
+				sc = render(rc)
 			}
 			if !opLibrary(op.K) {
 				if conc != nil && sc != ss {
@@ -261,17 +312,22 @@ func checkAgainstReference(s *RunSpec, conc, ref *world, out []Violation) []Viol
 				}
 				continue
 			}
-			if ss != si {
+			seqIso, _, _ := sameResult(rs, ri)
+			if !seqIso {
 				out = append(out, mkViol(s, ref, "O4", "c: result depends on what was called before", "sequential", t, i, si, ss,
 					"same operation on a history-free twin at a fresh address (expected) vs on the object with its sequential history (actual)"))
 			}
-			if conc != nil && sc != si {
-				if ss == si {
-					out = append(out, mkViol(s, ref, "O3", "e: concurrent result differs from sequential result", "concurrent", t, i, si, sc,
-						"isolated sequential reference (expected) vs result under the simulated schedule (actual)"))
-				} else if sc != ss {
-					out = append(out, mkViol(s, ref, "O3", "c/e: concurrent result differs from both references", "concurrent", t, i, si, sc,
-						"isolated reference (expected) vs result under the simulated schedule (actual); the sequential same-history result differs too"))
+			if conc != nil {
+				concIso, _, _ := sameResult(rc, ri)
+				if !concIso {
+					concSeq, _, _ := sameResult(rc, rs)
+					if seqIso {
+						out = append(out, mkViol(s, ref, "O3", "e: concurrent result differs from sequential result", "concurrent", t, i, si, sc,
+							"isolated sequential reference (expected) vs result under the simulated schedule (actual)"))
+					} else if !concSeq {
+						out = append(out, mkViol(s, ref, "O3", "c/e: concurrent result differs from both references", "concurrent", t, i, si, sc,
+							"isolated reference (expected) vs result under the simulated schedule (actual); the sequential same-history result differs too"))
+					}
 				}
 			}
 			// Block headers after an XR-reaching Marshal are compared only when the Marshal succeeded in
@@ -312,8 +368,8 @@ func checkRefAgreement(s *RunSpec, a, b *world, out []Violation) []Violation {
 			if !opLibrary(s.Tasks[t][i].K) {
 				continue
 			}
-			x, y := render(&a.iso[t][i]), render(&b.iso[t][i])
-			if x != y {
+			same, x, y := sameResult(&a.iso[t][i], &b.iso[t][i])
+			if !same {
 				out = append(out, mkViol(s, b, "O3", "c: reference result changed across the concurrent phase (state survived the run)", "pre-vs-post", t, i, x, y,
 					"isolated reference computed before (expected) and after (actual) the concurrent phase"))
 			}
